@@ -141,6 +141,26 @@ func checkC19(c CaseC19, info *Info) *Failure {
 		if !reflect.DeepEqual(map[string]interface{}(orig), c.GobMap) {
 			return failf("receiver-modified", "Gob/Copy changed the Map")
 		}
+		// an encoding returned earlier stays valid while other Maps are encoded (sequence of calls)
+		other := mxj.Map{"z": "second", "y": []interface{}{"q"}}
+		keepG := append([]byte(nil), gb...)
+		jb1, _ := orig.Json()
+		keepJ := append([]byte(nil), jb1...)
+		xb1, xerr1 := orig.Xml()
+		keepX := append([]byte(nil), xb1...)
+		for i := 0; i < 2; i++ {
+			other.Gob()
+			other.Json()
+			other.Xml()
+			other.XmlIndent("", " ")
+		}
+		if !bytes.Equal(gb, keepG) || !bytes.Equal(jb1, keepJ) || (xerr1 == nil && !bytes.Equal(xb1, keepX)) {
+			return failf("result-overwritten-by-later-call", "a byte slice returned by Gob/Json/Xml changed when another Map was encoded afterwards")
+		}
+		back2, berr2 := mxj.NewMapGob(gb)
+		if berr2 != nil || !gobEqual(map[string]interface{}(back2), c.GobMap) {
+			return failf("gob-mismatch", "NewMapGob of an earlier Gob() result after later Gob() calls = %#v,%v want %s", back2, berr2, canon(c.GobMap))
+		}
 	}
 
 	var ms mxj.Maps
